@@ -7,6 +7,7 @@ CONSTANTS
   Names = {"default"}
   Life = FALSE
   Flaws = TRUE
+  Inj = FALSE
 \* INVARIANT TypeOK
 \* INVARIANT ScopedDown
 \* INVARIANT GenNotShared
